@@ -802,15 +802,27 @@ impl Database {
         key: &String,
         value: &String,
         new_version: i32,
-        state: ValueStatus,
-        value_disk_addr: u64,
-        key_disk_addr: u64,
+        _state: ValueStatus,
+        _value_disk_addr: u64,
+        _key_disk_addr: u64,
         opp_id: u64,
     ) {
         #[cfg(feature = "verif")]
         crate::verif::yield_point("set_value_version.map.write");
         {
             let mut db = self.map.write().unwrap();
+            // The caller's copy of the key can be stale: a snapshot may have stored or moved the key
+            // since it was taken. Where the key is on disk, and what the next snapshot has to do
+            // with it, come from the entry as it is now (a key the snapshot has purged meanwhile is
+            // a new key: it has no place on disk any more)
+            let (state, value_disk_addr, key_disk_addr) = match db.get(key) {
+                Some(current) => (
+                    current.get_update_value_sate(),
+                    current.value_disk_addr,
+                    current.key_disk_addr,
+                ),
+                None => (ValueStatus::New, 0, 0),
+            };
             db.insert(
                 key.clone(),
                 Value {
